@@ -78,7 +78,22 @@ type scenario struct {
 	// reroute[s][d]: the destination block delivers through `reroute { deliver_to &T }` (a nested
 	// pipeline without checks of its own) instead of `deliver_to &T`.
 	reroute [][]bool
+
+	// dupOf[i]: index of the earlier recipient that RCPT command i repeats (same string, or the
+	// same mailbox in another spelling of the local part), -1 otherwise. See extend().
+	dupOf []int
+	// Spelling of the check blocks (extend()): directives[slot] lists the `check` directives of
+	// the block in order - a reference to a named top-level `checks` group or an inline block;
+	// groups[g] lists the members of group g. place[][] stays the truth about which check is
+	// applicable where: rows sc.k.. of place and of the verdict tables belong to FILLER checks
+	// (scripted checks without verdicts and without a rank in the barrier) that pad the groups.
+	directives [][]checkDirective
+	groups     [][]int
+	style      string
 }
+
+// n is the number of check objects of the configuration: the k ranked ones plus the fillers.
+func (sc *scenario) n() int { return len(sc.place) }
 
 func (sc *scenario) slotIndex(kind string, src, dst int) int {
 	for i, s := range sc.slots {
@@ -229,7 +244,11 @@ func genScenario(p *prng.R, tag string, focus bool) *scenario {
 func (sc *scenario) checkName(c int) string { return fmt.Sprintf("%s_C%d", sc.tag, c) }
 func (sc *scenario) tgtName(t int) string   { return fmt.Sprintf("%s_T%d", sc.tag, t) }
 
-func (sc *scenario) render(refs []string) string {
+func (sc *scenario) render(refs []string) string { return sc.renderNamed(refs, nil) }
+
+// renderNamed renders the pipeline; groupNames[g] is the instance name of group g (the
+// top-level blocks themselves are rendered by renderGroups).
+func (sc *scenario) renderNamed(refs []string, groupNames []string) string {
 	var sb strings.Builder
 	line := func(ind int, f string, a ...any) {
 		sb.WriteString(strings.Repeat("    ", ind))
@@ -238,8 +257,26 @@ func (sc *scenario) render(refs []string) string {
 	}
 	checks := func(ind int, kind string, src, dst int) {
 		si := sc.slotIndex(kind, src, dst)
+		if si >= 0 && sc.directives != nil {
+			for _, d := range sc.directives[si] {
+				if d.group >= 0 {
+					name := fmt.Sprintf("%s_G%d", sc.tag, d.group)
+					if groupNames != nil {
+						name = groupNames[d.group]
+					}
+					line(ind, "check &%s", name)
+					continue
+				}
+				line(ind, "check {")
+				for _, c := range d.inline {
+					line(ind+1, "%s", refs[c])
+				}
+				line(ind, "}")
+			}
+			return
+		}
 		var in []int
-		for c := 0; c < sc.k; c++ {
+		for c := 0; c < sc.n(); c++ {
 			if si >= 0 && sc.place[c][si] {
 				in = append(in, c)
 			}
@@ -304,16 +341,16 @@ type expectation struct {
 }
 
 func (sc *scenario) model() *expectation {
-	e := &expectation{rcptRefused: make([]bool, len(sc.rcpts)), msgScope: make([]bool, sc.k), bodyScope: make([]bool, sc.k)}
-	e.dstScope = make([][]bool, sc.k)
-	for c := 0; c < sc.k; c++ {
+	e := &expectation{rcptRefused: make([]bool, len(sc.rcpts)), msgScope: make([]bool, sc.n()), bodyScope: make([]bool, sc.n())}
+	e.dstScope = make([][]bool, sc.n())
+	for c := 0; c < sc.n(); c++ {
 		e.msgScope[c] = sc.in(c, "global", -1, -1) || sc.in(c, "source", sc.sel, -1)
 		e.dstScope[c] = make([]bool, len(sc.rcpts))
 		for i := range sc.rcpts {
 			e.dstScope[c][i] = sc.nDst[sc.sel] > 1 && sc.in(c, "destination", sc.sel, sc.rcptDst[i])
 		}
 	}
-	for c := 0; c < sc.k; c++ {
+	for c := 0; c < sc.n(); c++ {
 		if e.msgScope[c] {
 			if sc.conn[c] == vReject || sc.snd[c] == vReject {
 				e.mailRefused = true
@@ -326,13 +363,13 @@ func (sc *scenario) model() *expectation {
 	if e.mailRefused {
 		return e
 	}
-	for c := 0; c < sc.k; c++ {
+	for c := 0; c < sc.n(); c++ {
 		if e.msgScope[c] && (sc.conn[c] == vQuarantine || sc.snd[c] == vQuarantine) {
 			e.qMust = true
 		}
 	}
 	for i := range sc.rcpts {
-		for c := 0; c < sc.k; c++ {
+		for c := 0; c < sc.n(); c++ {
 			switch {
 			case e.msgScope[c]:
 				if sc.rcptV[c][i] == vReject {
@@ -346,7 +383,7 @@ func (sc *scenario) model() *expectation {
 		}
 	}
 	for i := range sc.rcpts {
-		for c := 0; c < sc.k; c++ {
+		for c := 0; c < sc.n(); c++ {
 			if !e.msgScope[c] && !e.dstScope[c][i] {
 				continue
 			}
@@ -368,7 +405,7 @@ func (sc *scenario) model() *expectation {
 	if !e.anyAccepted {
 		return e
 	}
-	for c := 0; c < sc.k; c++ {
+	for c := 0; c < sc.n(); c++ {
 		e.bodyScope[c] = e.msgScope[c]
 		for i := range sc.rcpts {
 			if e.dstScope[c][i] && !e.rcptRefused[i] {
@@ -385,7 +422,7 @@ func (sc *scenario) model() *expectation {
 		}
 	}
 	if !e.bodyRefused {
-		for c := 0; c < sc.k; c++ {
+		for c := 0; c < sc.n(); c++ {
 			if e.bodyScope[c] && sc.body[c] == vQuarantine {
 				e.qMust = true
 			}
@@ -400,7 +437,7 @@ func (sc *scenario) model() *expectation {
 // for recipients outside the check's scope (the implementation replays those; not judged).
 func (sc *scenario) normalise() {
 	e := sc.model()
-	for c := 0; c < sc.k; c++ {
+	for c := 0; c < sc.n(); c++ {
 		if e.anyAccepted && !e.bodyScope[c] {
 			sc.body[c] = vNone
 		}
@@ -430,7 +467,7 @@ func (sc *scenario) normalise() {
 	}
 	for i := range sc.rcpts {
 		first := 99
-		for c := 0; c < sc.k; c++ {
+		for c := 0; c < sc.n(); c++ {
 			ph := phase(c, i)
 			if ph == 0 {
 				continue
@@ -447,7 +484,7 @@ func (sc *scenario) normalise() {
 				}
 			}
 		}
-		for c := 0; c < sc.k; c++ {
+		for c := 0; c < sc.n(); c++ {
 			if ph := phase(c, i); ph > first {
 				sc.rcptV[c][i] = vNone
 			}
@@ -457,14 +494,27 @@ func (sc *scenario) normalise() {
 
 // ---------- one execution ----------
 
+// statusCollector reads the per-recipient statuses the way the LMTP endpoint does
+// (internal/endpoint/smtp statusWrapper): every accepted RCPT command gets its own status, a
+// success never replaces a failure, and a recipient named in m accepted RCPT commands needs m
+// failure statuses for all of these commands to be answered with a failure.
 type statusCollector struct {
-	mu sync.Mutex
-	st map[string]error
+	mu    sync.Mutex
+	st    map[string]error
+	fails map[string]int
 }
 
 func (s *statusCollector) SetStatus(rcpt string, err error) {
 	s.mu.Lock()
-	s.st[rcpt] = err
+	if err != nil {
+		s.st[rcpt] = err
+		if s.fails == nil {
+			s.fails = map[string]int{}
+		}
+		s.fails[rcpt]++
+	} else if _, ok := s.st[rcpt]; !ok {
+		s.st[rcpt] = nil
+	}
 	s.mu.Unlock()
 }
 
@@ -476,11 +526,14 @@ type outcome struct {
 	statuses  map[string]error // LMTP path
 	bodyOK    bool
 	mixedLMTP bool
-	log       *mx.Log
-	groups    []string
-	fallbacks int
-	maxGroup  int
-	committed bool
+	// over LMTP a recipient named in several accepted RCPT commands got fewer failure statuses
+	// than commands (but at least one)
+	repeatedPartly bool
+	log            *mx.Log
+	groups         []string
+	fallbacks      int
+	maxGroup       int
+	committed      bool
 	// check calls that were still unfinished when the pipeline call they belong to returned
 	outlived []string
 	// ... of which finished only when the message was over (policy stragglersFinishLast)
@@ -602,7 +655,7 @@ func (sc *scenario) run(lmtp bool, rank []int, useBarrier bool, ignoreAsNone boo
 	bar.policy = policy
 	rcptIdx := map[string]int{}
 	for i, r := range sc.rcpts {
-		rcptIdx[r] = i
+		rcptIdx[r] = i // repeated recipients have the same verdicts in every spelling
 	}
 	refs := make([]string, sc.k)
 	var checks []*mx.ScriptCheck
@@ -632,6 +685,12 @@ func (sc *scenario) run(lmtp bool, rank []int, useBarrier bool, ignoreAsNone boo
 		refs[c] = mx.CheckRef(ch)
 		checks = append(checks, ch)
 	}
+	for c := sc.k; c < sc.n(); c++ {
+		// fillers: no verdicts, no rank (they are not parked in the barrier)
+		ch := mx.NewCheck(sc.checkName(c), lg)
+		refs = append(refs, mx.CheckRef(ch))
+		checks = append(checks, ch)
+	}
 	defer func() {
 		for _, ch := range checks {
 			mx.CheckUnref(ch)
@@ -649,7 +708,21 @@ func (sc *scenario) run(lmtp bool, rank []int, useBarrier bool, ignoreAsNone boo
 			mx.RegisterInstance(tomb{n})
 		}
 	}()
-	text := sc.render(refs)
+	// named top-level `checks` groups, registered the way maddy.go registers the blocks of
+	// maddy.conf; instance names are unique per execution
+	var groupNames []string
+	for g := range sc.groups {
+		groupNames = append(groupNames, fmt.Sprintf("%s_r%d_G%d", sc.tag, runID, g))
+	}
+	text := sc.renderNamed(refs, groupNames)
+	if len(groupNames) > 0 {
+		blocks := sc.renderGroups(refs, groupNames)
+		names, err := mx.RegisterBlocks(blocks, nil)
+		registered = append(registered, names...)
+		if err != nil {
+			return nil, fmt.Errorf("top-level blocks refused: %v\n%s", err, blocks)
+		}
+	}
 	pl, err := mx.BuildPipeline(text, nil)
 	if err != nil {
 		return nil, fmt.Errorf("configuration refused: %v\n%s", err, text)
@@ -698,13 +771,26 @@ func (o *outcome) drive(sc *scenario, pl *msgpipeline.MsgPipeline, bar *barrier,
 			bar.around("abort", func() { d.Abort(ctx) })
 			return
 		}
-		col := &statusCollector{st: map[string]error{}}
+		col := &statusCollector{st: map[string]error{}, fails: map[string]int{}}
 		bar.around("body", func() { pd.BodyNonAtomic(ctx, col, hdr, body) })
 		o.statuses = col.st
-		failed := 0
+		// RCPT commands answered with a failure status: per recipient string at most as many as
+		// there were accepted commands naming it (the endpoint drops the surplus)
+		cmds := map[string]int{}
 		for i, r := range sc.rcpts {
-			if o.rcptErr[i] == nil && col.st[r] != nil {
-				failed++
+			if o.rcptErr[i] == nil {
+				cmds[r]++
+			}
+		}
+		failed := 0
+		for r, m := range cmds {
+			f := col.fails[r]
+			if f > m {
+				f = m
+			}
+			failed += f
+			if m > 1 && f != 0 && f != m {
+				o.repeatedPartly = true
 			}
 		}
 		o.bodyOK = failed == 0
@@ -826,7 +912,9 @@ func (sc *scenario) judge(o *outcome, e *expectation, path string, r *rep.Report
 			return out
 		}
 		if o.bodyRun {
-			if o.mixedLMTP {
+			if o.mixedLMTP && o.repeatedPartly {
+				add("reject-partially-enforced/body/"+path+"/recipient-given-in-several-rcpt-commands", fmt.Sprintf("a recipient named in several accepted RCPT commands got fewer failure statuses than commands, so the LMTP endpoint answers the others with success and commits: %v", o.statuses))
+			} else if o.mixedLMTP {
 				add("reject-partially-enforced/body/"+path, fmt.Sprintf("per-recipient statuses differ although only message-wide checks can fail: %v", o.statuses))
 			} else if e.bodyRefused == o.bodyOK {
 				scope := "global-or-source-check"
@@ -887,7 +975,7 @@ func (sc *scenario) judge(o *outcome, e *expectation, path string, r *rep.Report
 		}
 		stage := strings.TrimSuffix(strings.TrimPrefix(x.Kind, "check."), ".call")
 		c := -1
-		for i := 0; i < sc.k; i++ {
+		for i := 0; i < sc.n(); i++ {
 			if x.Target == sc.checkName(i) {
 				c = i
 			}
@@ -897,7 +985,7 @@ func (sc *scenario) judge(o *outcome, e *expectation, path string, r *rep.Report
 		}
 		arg := ""
 		if stage == "rcpt" {
-			arg = x.Rcpt
+			arg = strings.ToLower(x.Rcpt) // per mailbox, see below
 		}
 		calls[key{c, stage, arg}]++
 		if states[c] == nil {
@@ -906,14 +994,47 @@ func (sc *scenario) judge(o *outcome, e *expectation, path string, r *rep.Report
 		states[c][x.Delivery] = true
 		r.Count("check_calls_"+stage, 1)
 	}
+	// Recipient-stage calls are counted per mailbox (case-folded address). A mailbox named in m
+	// RCPT commands (repeated, also in another spelling) is "handled" m times: whether the check
+	// has to see it once or m times is not stated, so 1..m calls are accepted (m = 1: exactly once).
+	type mailbox struct {
+		name        string
+		first, cmds int
+		anyAccepted bool
+	}
+	var boxes []*mailbox
+	for i, rc := range sc.rcpts {
+		var mb *mailbox
+		for _, b := range boxes {
+			if b.name == strings.ToLower(rc) {
+				mb = b
+			}
+		}
+		if mb == nil {
+			mb = &mailbox{name: strings.ToLower(rc), first: i}
+			boxes = append(boxes, mb)
+		}
+		mb.cmds++
+		if o.mailErr == nil && i < len(o.rcptErr) && o.rcptErr[i] == nil {
+			mb.anyAccepted = true
+		}
+	}
+	atMost := 1
 	need := func(c int, stage, arg string, exactly bool, scope string) {
 		n := calls[key{c, stage, arg}]
+		if stage == "rcpt" && atMost > 1 && n > 1 && n <= atMost {
+			r.Count("repeated_recipient_seen_more_than_once_not_judged", 1)
+			return
+		}
+		if stage == "rcpt" && atMost > 1 && n > atMost {
+			scope += "/more-often-than-rcpt-commands"
+		}
 		path := "/" + path
 		if stage != "body" {
 			path = "" // the body path is chosen after these stages
 		}
 		switch {
-		case n > 1:
+		case n > 1 && (stage != "rcpt" || n > atMost):
 			multi := ""
 			if len(states[c]) > 1 {
 				multi = "/on-several-state-objects"
@@ -924,7 +1045,7 @@ func (sc *scenario) judge(o *outcome, e *expectation, path string, r *rep.Report
 		}
 	}
 	mailOK := o.mailErr == nil
-	for c := 0; c < sc.k; c++ {
+	for c := 0; c < sc.n(); c++ {
 		scope := "destination-check"
 		if e.msgScope[c] {
 			scope = "global-or-source-check"
@@ -958,15 +1079,17 @@ func (sc *scenario) judge(o *outcome, e *expectation, path string, r *rep.Report
 		}
 		need(c, "conn", "", mailOK && (e.msgScope[c] || acceptedInScope), scope)
 		need(c, "sender", "", mailOK && (e.msgScope[c] || acceptedInScope), scope)
-		for i, rc := range sc.rcpts {
-			in := e.msgScope[c] || e.dstScope[c][i]
+		for _, mb := range boxes {
+			in := e.msgScope[c] || e.dstScope[c][mb.first]
 			if !in {
-				if calls[key{c, "rcpt", rc}] > 0 {
+				if calls[key{c, "rcpt", mb.name}] > 0 {
 					r.Count("out_of_scope_rcpt_replays_not_judged", 1)
 				}
 				continue
 			}
-			need(c, "rcpt", rc, mailOK && o.rcptErr[i] == nil, scope)
+			atMost = mb.cmds
+			need(c, "rcpt", mb.name, mb.anyAccepted, scope)
+			atMost = 1
 		}
 		bodyApplies := o.bodyRun && e.bodyScope[c]
 		if bodyApplies || calls[key{c, "body", ""}] > 1 {
@@ -997,19 +1120,21 @@ func (sc *scenario) placementOf(c int) []string {
 func (sc *scenario) describe() map[string]any {
 	m := map[string]any{"sender": sc.sender, "rcpts": sc.rcpts, "selected_source": sc.sel, "rcpt_destination_block": sc.rcptDst, "partial_targets": sc.partial}
 	var cs []map[string]any
-	for c := 0; c < sc.k; c++ {
+	for c := 0; c < sc.n(); c++ {
 		rv := map[string]string{}
 		for i, v := range sc.rcptV[c] {
 			rv[sc.rcpts[i]] = v.String()
 		}
-		cs = append(cs, map[string]any{"check": c, "placement": sc.placementOf(c), "conn": sc.conn[c].String(), "sender": sc.snd[c].String(), "rcpt": rv, "body": sc.body[c].String(), "reply_override": sc.override[c], "temporary_reason": sc.tempReason[c]})
+		cs = append(cs, map[string]any{"check": c, "placement": sc.placementOf(c), "conn": sc.conn[c].String(), "sender": sc.snd[c].String(), "rcpt": rv, "body": sc.body[c].String(), "reply_override": sc.override[c], "temporary_reason": sc.tempReason[c], "filler_without_verdicts": c >= sc.k})
 	}
 	m["checks"] = cs
-	refs := make([]string, sc.k)
+	m["rcpt_repeats_earlier_rcpt"] = sc.dupOf
+	m["check_block_spelling"] = sc.style
+	refs := make([]string, sc.n())
 	for c := range refs {
 		refs[c] = "verif_check_ref " + sc.checkName(c)
 	}
-	m["config"] = sc.render(refs)
+	m["config"] = sc.renderGroups(refs, nil) + sc.render(refs)
 	return m
 }
 
@@ -1046,6 +1171,12 @@ func (sc *scenario) shape() string {
 		}
 	}
 	parts = append(parts, fmt.Sprintf("r%d", len(sc.rcpts)))
+	if k := sc.spellingClass(); k.repeated {
+		parts = append(parts, "repeated-rcpt")
+	}
+	if sc.style != "" && sc.style != "inline" {
+		parts = append(parts, sc.style)
+	}
 	return strings.Join(parts, " ")
 }
 
@@ -1220,8 +1351,11 @@ func TestVerif(t *testing.T) {
 			if par {
 				sc.forceParallelReplay(prng.New(r.Seed(), uint64(i), "c06-parallel-replay"))
 			}
+			removed := sc.extend(prng.New(r.Seed(), uint64(i), "c06-repeated-rcpts-and-check-groups"))
+			r.Count("rcpt_stage_rejects_of_exactly_repeated_recipients_not_generated", int64(removed))
 			sc.normalise()
 			e := sc.model()
+			cls := sc.spellingClass()
 			if rq, mixed := sc.parallelReplayClass(e); mixed > 0 {
 				r.Count("cases_differing_verdicts_side_by_side_at_replayed_stage", 1)
 				if rq > 0 {
@@ -1248,6 +1382,23 @@ func TestVerif(t *testing.T) {
 							t.Fatalf("%v", err)
 						}
 						r.Count("executions", 1)
+						if cls.repeated {
+							r.Count("executions_with_recipient_given_in_several_rcpt_commands", 1)
+							if lmtp && o.bodyRun && e.bodyRefused && !o.bodyOK {
+								twice := map[string]int{}
+								for ri, rc := range sc.rcpts {
+									if o.rcptErr[ri] == nil {
+										twice[rc]++
+									}
+								}
+								for _, m := range twice {
+									if m > 1 {
+										r.Count("lmtp_body_refusals_with_recipient_accepted_in_several_rcpt_commands", 1)
+										break
+									}
+								}
+							}
+						}
 						r.Count("barrier_fallbacks", int64(o.fallbacks))
 						for _, g := range o.groups {
 							r.Distinct("completion_orders_observed", g[:strings.Index(g, ":")]+":"+anonymise(g[strings.Index(g, ":")+1:], sc))
@@ -1334,6 +1485,24 @@ func TestVerif(t *testing.T) {
 				r.Sample(sc.describe())
 			}
 			nontrivial := stagesOf(sc, func(v verdict) bool { return v != vNone }) != ""
+			if cls.consecutive {
+				r.Count("cases_recipient_repeated_consecutively", 1)
+			}
+			if cls.apart {
+				r.Count("cases_recipient_repeated_with_another_in_between", 1)
+			}
+			if cls.otherSpelling {
+				r.Count("cases_recipient_repeated_in_another_spelling", 1)
+			}
+			r.Count("check_group_references_rendered", int64(cls.groupRefs))
+			r.Count("blocks_with_several_check_directives", int64(cls.severalDirectives))
+			r.Count("blocks_group_reference_then_further_check_directive", int64(cls.refThenMore))
+			if cls.refThenMoreSpare >= 2 {
+				r.Count("cases_two_blocks_sharing_a_group_with_spare_capacity_then_own_checks", 1)
+			}
+			for _, g := range sc.groups {
+				r.Distinct("check_group_sizes", fmt.Sprint(len(g)))
+			}
 			for i := range sc.rcpts {
 				if sc.reroute[sc.sel][sc.rcptDst[i]] {
 					r.Count("recipients_delivered_through_reroute_block", 1)
@@ -1350,6 +1519,7 @@ func TestVerif(t *testing.T) {
 	dmarcGroup(t, r)
 	remoteGroup(t, r)
 	remotePipelineGroup(t, r)
+	endpointGroup(t, r)
 	r.Set("exhaustive", map[string]any{"completion_orders": "all k! rank orders of the k<=4 checks of every scenario, on both body paths"})
 }
 
